@@ -423,6 +423,34 @@ OP_SPECS = {"__and__": ("x in A and x in B", lambda a, b: a and b), "__or__": ("
             "__sub__": ("x in A and x not in B", lambda a, b: a and not b), "__xor__": ("x in A xor x in B", lambda a, b: a != b)}
 
 
+def _operand_domain(it, me: str, other: str) -> Optional[List[str]]:
+    """the operands whose elements `it` lists, in order: chain(self, other), [*self, *other], list(self) + list(other), self;
+    None when the expression is something else"""
+    def one(e) -> Optional[List[str]]:
+        if isinstance(e, ast.Starred):
+            e = e.value
+        while isinstance(e, ast.Call) and src(e.func) in ("list", "tuple", "iter") and len(e.args) == 1 and not e.keywords:
+            e = e.args[0]
+        if isinstance(e, ast.Name) and e.id in (me, other):
+            return [e.id]
+        return None
+    if isinstance(it, ast.Call) and src(it.func) in ("itertools.chain", "chain") and not it.keywords:
+        parts = [one(a) if not isinstance(a, ast.Starred) else None for a in it.args]
+    elif isinstance(it, ast.Call) and src(it.func) in ("itertools.chain.from_iterable", "chain.from_iterable") and len(it.args) == 1 \
+            and isinstance(it.args[0], (ast.Tuple, ast.List)):
+        parts = [one(a) if not isinstance(a, ast.Starred) else None for a in it.args[0].elts]
+    elif isinstance(it, (ast.List, ast.Tuple)) and it.elts and all(isinstance(a, ast.Starred) for a in it.elts):
+        parts = [one(a) for a in it.elts]
+    elif isinstance(it, ast.BinOp) and isinstance(it.op, ast.Add):
+        l, r = _operand_domain(it.left, me, other), _operand_domain(it.right, me, other)
+        return None if l is None or r is None else l + r
+    else:
+        return one(it)
+    if any(p is None for p in parts):
+        return None
+    return [x for p in parts for x in p]
+
+
 def r3_operators(prog, rep: Report, ss: Cls):
     rep.rule("C10.R3", "set operators: each of & | - ^ builds type(self)(<filter over chain(self, other)>) without passing a "
              "relation (exact de-duplication); the filter's truth table over the atoms x in self, x in other equals "
@@ -456,16 +484,34 @@ def r3_operators(prog, rep: Report, ss: Cls):
             continue
         kw = {k.arg for k in v.keywords}
         gen = flow.expand(v.args[0])
+        if isinstance(v.args[0], ast.Name) and not isinstance(gen, (ast.GeneratorExp, ast.ListComp)):
+            from ..util import as_comprehension
+            built = as_comprehension(prog, ss, f, v.args[0])       # selected = []; for ...: [for ...:] [if ...:] selected.append(x)
+            if built is not None:
+                gen = built
+        if isinstance(gen, (ast.GeneratorExp, ast.ListComp)) and len(gen.generators) == 2 and not gen.generators[0].ifs \
+                and isinstance(gen.generators[0].target, ast.Name) and isinstance(gen.generators[1].iter, ast.Name) \
+                and gen.generators[1].iter.id == gen.generators[0].target.id \
+                and isinstance(gen.generators[0].iter, (ast.Tuple, ast.List)):
+            # for operand in (self, other): for x in operand     ==     for x in chain(self, other)
+            g0, g1 = gen.generators
+            chained = ast.copy_location(ast.Call(func=ast.Name(id="chain", ctx=ast.Load()), args=list(g0.iter.elts), keywords=[]), g0.iter)
+            gen = ast.copy_location(type(gen)(elt=gen.elt, generators=[ast.comprehension(target=g1.target, iter=chained, ifs=g1.ifs,
+                                                                                         is_async=0)]), gen)
+            ast.fix_missing_locations(gen)
         if not isinstance(gen, (ast.GeneratorExp, ast.ListComp)) or len(gen.generators) != 1:
             rep.unrec("C10.R3", f, "operator", "argument is not a single-generator comprehension")
             continue
         g = gen.generators[0]
         it = flow.expand(g.iter) if isinstance(g.iter, ast.Name) else g.iter      # candidates = itertools.chain(self, other)
-        chain_ok = isinstance(it, ast.Call) and src(it.func) in ("itertools.chain", "chain") and \
-            [src(a) for a in it.args] == [f.self_name, other]
+        dom = _operand_domain(it, f.self_name, other)
         var = g.target.id if isinstance(g.target, ast.Name) else None
         elt_ok = isinstance(gen.elt, ast.Name) and gen.elt.id == var
-        if not chain_ok or not elt_ok or var is None:
+        if var is None or dom is None or (dom != [f.self_name, other] and set(dom) == {f.self_name, other}):
+            rep.unrec("C10.R3", f, "operator:domain", f"the candidates `{src(it)}` are not read as the elements of self followed by the "
+                      "elements of other")
+            continue
+        if dom != [f.self_name, other] or not elt_ok:
             rep.viol("C10.R3", f, "operator:domain",
                      f"the candidates are not the unmodified elements of chain(self, other): `{src(gen)}`",
                      scenario="A|B must contain the spans of both operands; iterating only one operand (or transforming the "
